@@ -308,29 +308,69 @@ def run(prog, rep, tier):
     # ---------------- R06.5 nonce layout and counter
     bn = one_body(prog, rep, 'R06.5', 'mla', exact='layers::encrypt::build_nonce')
     if bn is not None:
-        copies = [b for b in bn.calls() if b.term.cmethod == 'copy_from_slice']
+        # destination ranges of the nonce that are written, with what is written into them (several equivalent idioms)
+        def dest_range(op):
+            """(lo, hi) of the sub-slice of the 12-byte nonce an operand designates"""
+            e = expr_of(bn, op)
+            for _ in range(6):
+                if e[0] == 'cast':
+                    e = e[1]
+                    continue
+                if e[0] == 'ref':
+                    pl = e[1]
+                    nd = [p for p in pl[1] if p[0] != 'deref']
+                    if nd and nd[-1][0] == 'f' and bn.lty(pl[0]).startswith('(&mut [u8], &mut [u8])'):
+                        d = unique_def(bn, pl[0])
+                        if d is not None and d[2] == 'call' and d[3].cmethod == 'split_at_mut':
+                            k = const_eval(bn, d[3].args[1])
+                            return (0, k) if nd[-1][1] == 0 else (k, 12)
+                    if not nd:
+                        e = expr_of(bn, _mk_local_op(pl[0]))
+                        continue
+                    return None
+                if e[0] == 'place' and e[1][1] and e[1][1][-1][0] == 'f' and bn.lty(e[1][0]).startswith('(&mut [u8], &mut [u8])'):
+                    d = unique_def(bn, e[1][0])
+                    if d is not None and d[2] == 'call' and d[3].cmethod == 'split_at_mut':
+                        k = const_eval(bn, d[3].args[1])
+                        return (0, k) if e[1][1][-1][1] == 0 else (k, 12)
+                    return None
+                if e[0] == 'call' and e[2].cmethod == 'index_mut' and len(e[2].args) >= 2:
+                    r = expr_of(bn, e[2].args[1])
+                    if r[0] == 'agg':
+                        nm = r[3].j.get('adt', '').rsplit('::', 1)[-1]
+                        vals = [const_eval(bn, o) for o in r[3].ops]
+                        if nm == 'RangeTo':
+                            return (0, vals[0])
+                        if nm == 'RangeFrom':
+                            return (vals[0], 12)
+                        if nm == 'Range':
+                            return (vals[0], vals[1])
+                    return None
+                break
+            return None
         layout = []
-        for c in copies:
-            dst = origins(bn, [c.term.args[0].place[0]])
-            src = origins(bn, [c.term.args[1].place[0]])
-            rng = None
-            for cb in dst.calls:
-                t = bn.blocks[cb].term
-                if t.cmethod == 'index_mut':
-                    e = expr_of(bn, t.args[1])
-                    if e[0] == 'agg':
-                        adt = e[3].j.get('adt', '')
-                        vals = [(o.const_def(), o.const_int()) for o in e[3].ops]
-                        rng = (adt.rsplit('::', 1)[-1], vals)
-            srcdesc = 'prefix' if 1 in src.params and 2 not in src.params else None
-            if 2 in src.params:
-                conv = [bn.blocks[cb].term.cmethod for cb in src.calls]
-                srcdesc = 'ctr:' + ','.join(sorted(x for x in conv if x.startswith('to_')))
-            layout.append((rng, srcdesc))
-        want = [(('RangeTo', [('layers::encrypt::NONCE_SIZE', 8)]), 'prefix'), (('RangeFrom', [('layers::encrypt::NONCE_SIZE', 8)]), 'ctr:to_be_bytes')]
-        got = sorted(layout, key=lambda x: str(x))
-        ok = sorted(want, key=lambda x: str(x)) == got
-        rep.ob('R06.5', ok, 'R06.5|%s|layout' % bn.nkey, 'nonce[..8] = prefix, nonce[8..] = ctr.to_be_bytes()' if ok else 'nonce layout is %s, published: archive nonce followed by big-endian counter' % layout, bn.loc())
+        for c in bn.calls():
+            t = c.term
+            if t.cmethod == 'copy_from_slice' and len(t.args) == 2:
+                rng = dest_range(t.args[0])
+                src = origins(bn, [t.args[1].place[0]])
+                if 2 in src.params:
+                    conv = sorted(bn.blocks[cb].term.cmethod for cb in src.calls if bn.blocks[cb].term.cmethod.startswith('to_'))
+                    what = 'ctr:' + ('be' if conv == ['to_be_bytes'] else 'le' if conv == ['to_le_bytes'] else '?')
+                elif 1 in src.params:
+                    what = 'prefix'
+                else:
+                    what = '?'
+                layout.append((rng, what))
+            elif t.ctrait == 'byteorder::ByteOrder' and t.cmethod == 'write_u32' and len(t.args) == 2:
+                rng = dest_range(t.args[0])
+                st = t.callee.get('self_ty', '')
+                so = origins(bn, [t.args[1].place[0]]) if t.args[1].place is not None else None
+                e_ = 'be' if ('BigEndian' in st or 'NetworkEndian' in st) else 'le' if 'LittleEndian' in st else '?'
+                layout.append((rng, 'ctr:' + e_ if so and 2 in so.params else '?'))
+        want = [((0, 8), 'prefix'), ((8, 12), 'ctr:be')]
+        ok = sorted(layout, key=str) == sorted(want, key=str)
+        rep.ob('R06.5', ok, 'R06.5|%s|layout' % bn.nkey, 'nonce[0..8] = archive nonce, nonce[8..12] = big-endian chunk counter' if ok else 'nonce layout is %s, published: archive nonce followed by the big-endian counter' % layout, bn.loc())
         o = origins(bn, [0])
         ok12 = '[u8; 12]' in bn.lty(0)
         rep.ob('R06.5', ok12, 'R06.5|%s|size' % bn.nkey, '96-bit nonce' if ok12 else 'nonce type is %s' % bn.lty(0), bn.loc())
